@@ -1021,6 +1021,10 @@ func runC02(r *simrt.Run) {
 		if e := s.EpochStart(); e != st.lastEpoch {
 			st.lastEpoch = e
 			st.sweep("epoch")
+		} else if st.planModHeight != 0 && st.planModHeight+1 == s.Height() {
+			// first block after an in-place plan modification, same epoch: the pairing of live
+			// subscriptions changed mid-epoch; whatever was cached before must be gone by now
+			st.sweep("after-plan-modify")
 		}
 	})
 
